@@ -1,11 +1,12 @@
 SPECIFICATION Spec
 CONSTANTS
-  FailingGov = FALSE
-  MaxHeight = 5
-  MaxTx = 6
-  MaxPo = 2
+  FailingGov = TRUE
+  MaxHeight = 3
+  MaxTx = 3
   MaxFail = 1
-  Presets <- PresetsFull
+  MaxStreams = 1
+  Fees <- FeesQuick
+  DTs <- DTsGhost
 VIEW View
 INVARIANT Inv
 PROPERTY StepProps
